@@ -31,6 +31,16 @@ pub fn resolve_addr(
         match value
         {
             expr::Value::Integer(bigint) => bigint,
+
+            // A failed assertion cannot be guessed away:
+            // once guessing is over, it is an error
+            expr::Value::FailedConstraint(msg)
+                if ctx.is_last_iteration =>
+            {
+                report.message(msg);
+                return Err(());
+            }
+
             _ => util::BigInt::new(0, None),
         }
     };
